@@ -915,6 +915,15 @@ func genC07(r *rng, n int, hostile bool) []string {
 		if r.intn(4) == 0 {
 			out = append(out, "std.b32dec "+hxs(strings.ToUpper(strings.TrimSpace(sp))), "std.trim "+hxs(sp))
 		}
+		if r.intn(10) == 0 {
+			// every entry point answers a text that does not decode with an error (no panic, no code)
+			bad := hxs(pick(r, []string{"!not base32!", "MFRGG1", "AAA", "MF=RGG", "ıııııııı", "", " ", sp + "!"}))
+			c := genCounter(r)
+			out = append(out, fmt.Sprintf("ghotp %s %d N", bad, c), fmt.Sprintf("vhotp %s %s %d N", bad, hxs("123456"), c),
+				fmt.Sprintf("gtotp %s %s N", bad, timeFields(r, 59)), fmt.Sprintf("vtotp %s %s %s N", bad, hxs("123456"), timeFields(r, 59)),
+				fmt.Sprintf("gocra %s R:%s I:nil:3132333435363738:nil:nil:nil", bad, hxs("OCRA-1:HOTP-SHA1-6:QN08")),
+				fmt.Sprintf("vocra %s %s R:%s I:nil:3132333435363738:nil:nil:nil", bad, hxs("123456"), hxs("OCRA-1:HOTP-SHA1-6:QN08")))
+		}
 		if r.intn(8) == 0 {
 			// all entry points see the same key for different spellings
 			c := genCounter(r)
@@ -1165,6 +1174,9 @@ func genC17(r *rng, n int, hostile bool) []string {
 				w = pick(r, []int64{-1, -16, -1 << 40})
 			}
 			out = append(out, fmt.Sprintf("leftpad %s %d", hxs(hexString(r)), w))
+			// spellings of code lengths / hashes: the documented ones, and near misses that must fall back to 6 / SHA-1
+			out = append(out, "fromstr "+hxs(pick(r, []string{"6", "8", "9", "10", "SHA1", "SHA256", "SHA512", "", "7", "06", "08", "+8", "010", "264", "266", "-248", " 8", "8 ",
+				"８", "sha1", "Sha256", "SHA-1", "SHA384", "SHA512 ", "MD5", "1e1", "0x8", string(r.bytes(1 + r.intn(4)))})))
 			// the Must* helper (documented to panic on text that is not hexadecimal): width in bytes, over-long values included
 			hs := hexString(r)
 			if r.intn(3) == 0 {
